@@ -24,7 +24,7 @@ fn spec(t: Tier) -> Spec {
     Spec {
         id: "C11",
         level: "exploration",
-        rule: format!("(1) every token sequence of length <= {} over the 16-token alphabet (and over a variant with -delete) that the reference grammar REJECTS must be rejected by find_main: non-zero status, a diagnostic, empty stdout, tree untouched — sequences one token below the bound also with their operators spelled as words (-not, -and, -or: all of them, and each kind alone); (2) for each operand-taking primary every string of <= k symbols over a per-primary alphabet is given as operand; where the reference validity predicate says 'definitely invalid' the vector must be rejected the same way; (2b) names that are not valid UTF-8 (lone continuation byte first, 0xff last, truncated sequences, a directory and a link target of such bytes) under -print/-print0/-ls/-printf with every directive (plain, width 5, -5, 40)/-name/-iname/-path/-ipath/-regex/-iregex/-lname/-exec/-execdir/-empty/-size/-newer/-samefile, -P and -L: no panic; (3) every vector of (1),(2), every primary with its operand missing, every primary evaluated on an entry already removed by -delete, and -ls/-printf on entries owned by ids without passwd/group entries run under catch_unwind and must not panic; binary slice: vectors <= 3 tokens and a non-UTF-8 argument through the hooks-off binary (exit 101/134/signal = panic/abort; 10 s = hang). unwritable-output slice through the binary: -print, -print0, -printf (with and without a newline, with \\c), -ls with standard output = /dev/full / a pipe whose reader has gone, and -fprint, -fprint0, -fprintf writing to /dev/full — no panic, a non-zero ordinary status (or SIGPIPE), ENOSPC diagnosed; unwritable-standard-error slice: twelve commands that produce diagnostics (missing starting point, commands that cannot be started, a failing -delete, parse errors, per-file errors) with 2>/dev/full — no panic, the usual exit status; time-zone vectors: -newermt/-newerat/-newerct with wall-clock times inside a spring-forward gap or a fall-back overlap under five TZ rules, plus the %t/%T directives — no panic; scale vectors through the binary: N nested (negated) parentheses, right-nested -o / comma groups, N '!' in a row, chains of N terms, N starting points, operands of N bytes for -name/-regex/-printf/-path, N in 100, 1000, 3000, 10^4, 3x10^4, 10^5 — must end with an ordinary exit status (0, or non-zero with a diagnostic); non-trivial = vector the reference classifies as invalid", glen(t)),
+        rule: format!("(1) every token sequence of length <= {} over the 16-token alphabet (and over a variant with -delete) that the reference grammar REJECTS must be rejected by find_main: non-zero status, a diagnostic, empty stdout, tree untouched — sequences one token below the bound also with their operators spelled as words (-not, -and, -or: all of them, and each kind alone); (2) for each operand-taking primary every string of <= k symbols over a per-primary alphabet is given as operand; where the reference validity predicate says 'definitely invalid' the vector must be rejected the same way; (2b) names that are not valid UTF-8 (lone continuation byte first, 0xff last, truncated sequences, a directory and a link target of such bytes) under -print/-print0/-ls/-printf with every directive (plain, width 5, -5, 40)/-name/-iname/-path/-ipath/-regex/-iregex/-lname/-exec/-execdir/-empty/-size/-newer/-samefile, -P and -L: no panic; (2c) through the binary: a malformed expression after an action whose file is find's own standard error or output (/dev/stderr, /dev/fd/2, /dev/stdout): still rejected with a diagnostic on standard error; (3) every vector of (1),(2), every primary with its operand missing, every primary evaluated on an entry already removed by -delete, and -ls/-printf on entries owned by ids without passwd/group entries run under catch_unwind and must not panic; binary slice: vectors <= 3 tokens and a non-UTF-8 argument through the hooks-off binary (exit 101/134/signal = panic/abort; 10 s = hang). unwritable-output slice through the binary: -print, -print0, -printf (with and without a newline, with \\c), -ls with standard output = /dev/full / a pipe whose reader has gone, and -fprint, -fprint0, -fprintf writing to /dev/full — no panic, a non-zero ordinary status (or SIGPIPE), ENOSPC diagnosed; unwritable-standard-error slice: twelve commands that produce diagnostics (missing starting point, commands that cannot be started, a failing -delete, parse errors, per-file errors) with 2>/dev/full — no panic, the usual exit status; time-zone vectors: -newermt/-newerat/-newerct with wall-clock times inside a spring-forward gap or a fall-back overlap under five TZ rules, plus the %t/%T directives — no panic; scale vectors through the binary: N nested (negated) parentheses, right-nested -o / comma groups, N '!' in a row, chains of N terms, N starting points, operands of N bytes for -name/-regex/-printf/-path, N in 100, 1000, 3000, 10^4, 3x10^4, 10^5 — must end with an ordinary exit status (0, or non-zero with a diagnostic); non-trivial = vector the reference classifies as invalid", glen(t)),
         bound: json!({"grammar_len": glen(t), "operand_sweeps": sweeps(t).iter().map(|s| json!({"primary": s.primary, "alphabet": s.alphabet, "maxlen": s.maxlen})).collect::<Vec<_>>()}),
         assumptions: vec![
             "operands whose validity is debatable (valid in GNU but unsupported here, GNU-specific leniency) are executed for no-panic only".into(),
